@@ -114,23 +114,32 @@ class NohBlackBoxEos(ExactSolver):
 
 
 class PlanarNohBlackBox(NohBlackBoxEos):
-    def __init__(self,equation_of_state, initial_conditions = {'density': 1, 'velocity': -1, 'pressure': 0}):
+    def __init__(self, equation_of_state, initial_conditions = {'density': 1, 'velocity': -1, 'pressure': 0}, **kwargs):
         initial_conditions = dict(initial_conditions, symmetry=0)
-        super().__init__(equation_of_state, initial_conditions)
-    parameters = NohBlackBoxEos.parameters
+        super().__init__(equation_of_state, initial_conditions, **kwargs)
+    parameters = {
+        'u0': NohBlackBoxEos.parameters['u0'],
+        'rho0': NohBlackBoxEos.parameters['rho0']
+        }
     geometry = 1
 
 class CylindricalNohBlackBox(NohBlackBoxEos):
-    def __init__(self, equation_of_state, initial_conditions = {'density': 1, 'velocity': -1, 'pressure': 0}):
+    def __init__(self, equation_of_state, initial_conditions = {'density': 1, 'velocity': -1, 'pressure': 0}, **kwargs):
         initial_conditions = dict(initial_conditions, symmetry=1)
-        super().__init__(equation_of_state, initial_conditions)
-    parameters = NohBlackBoxEos.parameters
+        super().__init__(equation_of_state, initial_conditions, **kwargs)
+    parameters = {
+        'u0': NohBlackBoxEos.parameters['u0'],
+        'rho0': NohBlackBoxEos.parameters['rho0']
+        }
     geometry = 2
 
 class SphericalNohBlackBox(NohBlackBoxEos):
-    def __init__(self, equation_of_state, initial_conditions = {'density': 1, 'velocity': -1, 'pressure': 0}):
+    def __init__(self, equation_of_state, initial_conditions = {'density': 1, 'velocity': -1, 'pressure': 0}, **kwargs):
         initial_conditions = dict(initial_conditions, symmetry=2)
-        super().__init__(equation_of_state, initial_conditions)
-    parameters = NohBlackBoxEos.parameters
+        super().__init__(equation_of_state, initial_conditions, **kwargs)
+    parameters = {
+        'u0': NohBlackBoxEos.parameters['u0'],
+        'rho0': NohBlackBoxEos.parameters['rho0']
+        }
     geometry = 3
 
